@@ -73,8 +73,7 @@ func (m *RawManager) Close() {
 	})
 }
 
-// NodeIDs returns the identifier of each available node. IDs are returned in
-// the same order as they were provided in the creation of the Manager.
+// NodeIDs returns the identifier of each available node, sorted by ID.
 func (m *RawManager) NodeIDs() []uint32 {
 	m.mu.Lock()
 	defer m.mu.Unlock()
@@ -93,8 +92,9 @@ func (m *RawManager) Node(id uint32) (node *RawNode, found bool) {
 	return node, found
 }
 
-// Nodes returns a slice of each available node. IDs are returned in the same
-// order as they were provided in the creation of the Manager.
+// Nodes returns a slice of each available node, sorted by ID.
+//
+// NOTE: mutating the returned slice is not supported.
 func (m *RawManager) Nodes() []*RawNode {
 	m.mu.Lock()
 	defer m.mu.Unlock()
@@ -127,7 +127,13 @@ func (m *RawManager) AddNode(node *RawNode) error {
 	m.mu.Lock()
 	defer m.mu.Unlock()
 	m.lookup[node.id] = node
-	m.nodes = append(m.nodes, node)
+	// Keep the pool sorted by ID. The slice handed out by Nodes() is never
+	// modified afterwards: a new one is built for every added node.
+	nodes := make([]*RawNode, len(m.nodes), len(m.nodes)+1)
+	copy(nodes, m.nodes)
+	nodes = append(nodes, node)
+	OrderedBy(ID).Sort(nodes)
+	m.nodes = nodes
 	return nil
 }
 
